@@ -1,5 +1,6 @@
 import TenpyModel.Util.J
 import TenpyModel.C19.Variants
+import TenpyModel.C19.Ext
 open Lean TenpyModel TenpyModel.J
 open TenpyModel.C19
 
@@ -203,7 +204,63 @@ def query (o : Obj) (q : Json) : Except String Json := do
     else throw s!"unknown query {s}"
   | _ => throw "bad query"
 
+/-! Extension round: ops on `TenpyModel.C19.Ext` (lines with a field `"ext"`). -/
+
+def parseCoup (j : Json) : Except String Ext.Coup := do
+  match ← getArr j with
+  | [a, b, dx] => pure (← getNat a, ← getNat b, ← intList dx)
+  | _ => throw "bad coupling"
+
+def coupJ (c : Ext.Coup) : Json :=
+  Json.arr #[Json.num (JsonNumber.fromNat c.1), Json.num (JsonNumber.fromNat c.2.1), ofIntList c.2.2]
+
+def parseDict (j : Json) : Except String Ext.PairsDict :=
+  listOf (fun e => do
+    match ← getArr e with
+    | [k, v] => pure (← getStr k, ← listOf parseCoup v)
+    | _ => throw "bad dict entry") j
+
+def handleExt (op : String) (j : Json) : Except String Json := do
+  if op == "msp" then
+    let names ← listOf getStr (← field j "names")
+    let pairs ← parseDict (← field j "pairs")
+    let simpleLu ← getNat (← field j "simpleLu")
+    let dim ← getNat (← field j "dim")
+    let us ← natList (← field j "us")
+    let pos ← intRows (← field j "pos")
+    let cn ← listOf (fun e => do
+      match ← getArr e with
+      | [k, u] => pure (← getStr k, ← getNat u)
+      | _ => throw "bad cn") (← field j "cn")
+    let nsp := names.length
+    let d := Ext.genNewPairs names pairs simpleLu dim
+    let dJ : Json := match d with
+      | none => Json.str "error"
+      | some d => ofList (fun (e : String × List Ext.Coup) => Json.arr #[Json.str e.1, ofList coupJ e.2]) d
+    let umap := us.map (fun u => [Ext.selfUToSimpleU nsp u, Ext.selfUToSpeciesIdx nsp u,
+      Ext.simpleUToSpeciesU nsp (Ext.selfUToSimpleU nsp u) (Ext.selfUToSpeciesIdx nsp u)])
+    let cnJ := cn.map (fun (e : String × Nat) => match d with
+      | none => Json.null
+      | some d => match d.lookup e.1 with
+        | none => Json.null
+        | some ps => Json.num (JsonNumber.fromNat (Ext.countNeighbors ps e.2)))
+    return obj [("r", obj [("pairs", dJ), ("umap", ofList ofNatList umap),
+      ("pos", rowsJ (Ext.repeatRows pos nsp)),
+      ("tile", ofNatList (Ext.tileList (List.range nsp) simpleLu)),
+      ("cn", Json.arr cnJ.toArray)])]
+  else if op == "fcp" then
+    let basis ← intRows (← field j "basis")
+    let pos ← intRows (← field j "pos")
+    let m ← getNat (← field j "m")
+    let cut2 ← optOf getInt (fieldD j "cut2" Json.null)
+    match Ext.findCouplingPairs basis pos m cut2 with
+    | none => return obj [("r", Json.str "error")]
+    | some res => return obj [("r", ofList (fun (e : Int × List Ext.Coup) =>
+        Json.arr #[Json.num (JsonNumber.fromInt e.1), ofList coupJ e.2]) res)]
+  else throw s!"unknown ext op {op}"
+
 def handle (j : Json) : Except String Json := do
+  if let .ok e := field j "ext" then return ← handleExt (← getStr e) j
   let o ← build j
   let qs ← getArr (← field j "q")
   let rs ← qs.mapM (query o)
